@@ -19,7 +19,7 @@ def main(tier, seed, replay):
     ck.cov.update({
         "evaluations": len(cases), "distinct_nontrivial": len(nt),
         "rule": "one case = 2-3 processes each doing GetSession+Encrypt for the same partition, parked before every metastore call and released one at a time by a seeded "
-                "(uniform or PCT-priority) schedule; 6 starting states x {default, minute precision, no cache, shared LRU-2}; non-trivial = distinct (state, config, schedule) in which at "
+                "(uniform or PCT-priority) schedule; 8 starting states (cold, warm, IK/SK expired, IK/SK revoked, and SK revoked / expired while one racer still trusts its cached copy) x {default, minute precision, no cache, shared LRU-2}; non-trivial = distinct (state, config, schedule) in which at "
                 "least one insert was refused",
         "refused_inserts": sum(c.get("refused", 0) for c in cases), "starting_states": sorted(set(c["state"] for c in cases)),
         "samples": [{k: cases[0][k] for k in ("state", "cfg", "procs", "trace", "stores", "refused")}],
